@@ -938,6 +938,13 @@ fn rth_gen<F>(s: &Slot<F>) -> Option<Option<Slot<F>>> {
 struct EqProbe<'a, T>(&'a T, &'a T);
 trait ProbeHasEq { fn probe_eq(&self) -> Option<bool>; }
 impl<'a, T: PartialEq> ProbeHasEq for EqProbe<'a, T> { fn probe_eq(&self) -> Option<bool> { Some(self.0 == self.1) } }
+/// the rest of the PartialEq surface: `!=` (PartialEq::ne may be overridden), both argument orders, through a reference wrapper
+trait ProbeHasNe { fn probe_ne(&self) -> Option<[bool; 4]>; }
+impl<'a, T: PartialEq> ProbeHasNe for EqProbe<'a, T> {
+    fn probe_ne(&self) -> Option<[bool; 4]> { Some([self.0 != self.1, self.1 == self.0, self.1 != self.0, &self.0 != &self.1]) }
+}
+trait ProbeNoNe { fn probe_ne(&self) -> Option<[bool; 4]>; }
+impl<'a, T> ProbeNoNe for &EqProbe<'a, T> { fn probe_ne(&self) -> Option<[bool; 4]> { None } }
 trait ProbeNoEq { fn probe_eq(&self) -> Option<bool>; }
 impl<'a, T> ProbeNoEq for &EqProbe<'a, T> { fn probe_eq(&self) -> Option<bool> { None } }
 
@@ -945,9 +952,18 @@ fn eq_slots<F>(a: &Slot<F>, b: &Slot<F>, core_fallback: bool) -> String {
     macro_rules! arms {
         ($($t:ident),*) => {
             match (a, b) {
-                $( (Slot::$t(x), Slot::$t(y)) => match (&EqProbe::<$t>(&**x, &**y)).probe_eq().or_else(|| if core_fallback { x.eq_(y) } else { None }) {
-                    Some(r) => r.to_string(),
-                    None => "unsupported".into(),
+                $( (Slot::$t(x), Slot::$t(y)) => {
+                    let e = (&EqProbe::<$t>(&**x, &**y)).probe_eq();
+                    if let (Some(e), Some(n)) = (e, (&EqProbe::<$t>(&**x, &**y)).probe_ne()) {
+                        // a != b, b == a, b != a, &a != &b must all agree with a == b
+                        if n[0] == e || n[1] != e || n[2] == e || n[3] == e {
+                            return format!("inconsistent: a==b {} a!=b {} b==a {} b!=a {} &a!=&b {}", e, n[0], n[1], n[2], n[3]);
+                        }
+                    }
+                    match e.or_else(|| if core_fallback { x.eq_(y) } else { None }) {
+                        Some(r) => r.to_string(),
+                        None => "unsupported".into(),
+                    }
                 }, )*
                 _ => "unsupported".into(),
             }
